@@ -131,6 +131,7 @@ func errFlowFamily(w *World, prop string) ([]*Obligation, []string) {
 			}
 		}
 		fx := newFnExec(w, fn, ct)
+		fx.hookGhost = "pendErr"
 		calleeOf := func(c *ssa.CallCommon) string {
 			if f := c.StaticCallee(); f != nil {
 				return calleeName(f)
@@ -191,7 +192,7 @@ func errFlowFamily(w *World, prop string) ([]*Obligation, []string) {
 			if e == "" {
 				return
 			}
-			old := fx.cur.gh["pendErr"]
+			old, _ := fx.ghostVal(fx.cur.gh, "pendErr")
 			for _, r := range retry {
 				if strings.Contains(callee, r) {
 					if prev, ok := lastErrOf[callee]; ok {
@@ -209,7 +210,7 @@ func errFlowFamily(w *World, prop string) ([]*Obligation, []string) {
 			fx.cur.gh["pendErr"] = n
 		}
 		fx.onReturn = func(fx *FnExec, ret *ssa.Return, vals []Val) {
-			pend := fx.cur.gh["pendErr"]
+			pend, _ := fx.ghostVal(fx.cur.gh, "pendErr")
 			var goal string
 			if lastResultIsError(fn.Signature) {
 				re := vals[len(vals)-1].S
@@ -302,7 +303,7 @@ func (fx *FnExec) errorfWraps(c *ssa.CallCommon, ret string) {
 		a := fx.load(&Place{Kind: PElem, Arr: pl.Arr, Idx: fmt.Sprint(i), Elem: arr.Elem()})
 		fx.assume("(wraps " + ret + " " + a + ")")
 		// transitivity, instantiated for the pending failure
-		if pend, ok := fx.cur.gh["pendErr"]; ok {
+		if pend, ok := fx.ghostVal(fx.cur.gh, "pendErr"); ok {
 			fx.assume("(=> (wraps " + a + " " + pend + ") (wraps " + ret + " " + pend + "))")
 			fx.assume("(wraps " + a + " " + a + ")")
 		}
